@@ -12,6 +12,7 @@ import (
 	"github.com/libp2p/go-libp2p/core/crypto"
 	"io"
 	"math/rand"
+	"net"
 	"runtime"
 	"sort"
 	"strings"
@@ -1240,6 +1241,18 @@ func (f *faultReader) Read(p []byte) (int, error) {
 		if f.kind == "eof" {
 			return io.EOF
 		}
+		// a failure is a failure whatever it wraps: only the bare io.EOF means "end of stream" (io.Reader), an error whose chain
+		// holds it (a connection reset reported by the net package, a wrapped cause) does not
+		switch f.at % 6 {
+		case 1:
+			return fmt.Errorf("read tcp 10.0.0.1:443: %w", io.EOF)
+		case 2:
+			return &net.OpError{Op: "read", Net: "tcp", Err: io.EOF}
+		case 3:
+			return fmt.Errorf("storage: %w", io.ErrUnexpectedEOF)
+		case 4:
+			return io.ErrClosedPipe
+		}
 		return errInjected
 	}
 	if f.pos >= limit {
@@ -1781,19 +1794,30 @@ func init() {
 					return err
 				}
 				for k := 1; k <= cnt.calls+1; k++ {
-					for mode, one := range []bool{false, true, false} {
-						if mode == 2 && !strings.HasPrefix(s.kind, "token") {
+					for mode, one := range []bool{false, true, false, true} {
+						if mode == 3 && s.kind != "token" && s.kind != "token-generic" {
+							continue // (the transient short count is judged on the writers that return a CID)
+						}
+						if mode >= 2 && !strings.HasPrefix(s.kind, "token") {
 							// a destination that reports a refusal by the count alone breaks the io.Writer contract; the token
 							// encoders notice all the same (io.ErrShortWrite) and are held to it, the container writers are judged
 							// on this point by the container replay (known finding ContainerShortCount)
 							continue
 						}
-						fw := &faultWriter{failAt: k, oneShot: one, short: mode == 2}
-						_, werr := a.writeTo(fw)
-						if werr == nil && (fw.calls < k || (mode == 2 && !fw.fired)) {
+						fw := &faultWriter{failAt: k, oneShot: one, short: mode >= 2}
+						wid, werr := a.writeTo(fw)
+						if werr == nil && (fw.calls < k || (mode >= 2 && !fw.fired)) {
 							continue // this run needed fewer writes (map iteration order): the fault never fired
 						}
-						emit(map[string]any{"ev": "WriteFault", "art": strings.SplitN(s.kind, "-", 2)[0], "api": s.kind, "b64": s.b64, "writes": fw.calls, "k": k, "oneshot": one, "shortcount": mode == 2, "failed": werr != nil})
+						// a short count without an error (io.Writer forbids it): the call fails - or, if it went on and offered the rest
+						// again, what it reports is true of what the destination holds (complete bytes, and the CID of those bytes)
+						made := false
+						if werr == nil && mode >= 2 {
+							want, _ := cid.V1Builder{Codec: cid.DagCBOR, MhType: multihash.SHA2_256}.Sum(fw.buf.Bytes())
+							_, id2, uerr := token.FromSealed(fw.buf.Bytes())
+							made = uerr == nil && id2 == want && wid == want
+						}
+						emit(map[string]any{"ev": "WriteFault", "art": strings.SplitN(s.kind, "-", 2)[0], "api": s.kind, "b64": s.b64, "writes": fw.calls, "k": k, "oneshot": one, "shortcount": mode >= 2, "failed": werr != nil, "made_good": made})
 					}
 				}
 			}
